@@ -9,3 +9,5 @@ cargo build --release --offline 2>&1 | tail -3
 cargo build --release --offline -p harness --features miniwasm --target-dir /verif/target-mw 2>&1 | tail -3
 ./target/release/harness selftest
 ./target-mw/release/harness selftest
+# libFuzzer targets for the thorough tier (optional: a failure here only disables that stage)
+( cd fuzz && cp -n ../Cargo.lock Cargo.lock; cargo fuzz build -s none 2>&1 | tail -1 ) || echo "fuzz targets not built; thorough tiers will skip the libFuzzer stage"
